@@ -271,8 +271,9 @@ class Composed:
         self.log = []
 
 
-def compose(template_text, unit, canary=None):
-    """canary: None | 'head' | 'loop_head' | 'after_loop' -> inject `assert(false)` probes."""
+def compose(template_text, unit, canary=None, canary_loop=None):
+    """canary: None | 'head' | 'loop_head' | 'after_loop' -> inject `assert(false)` probes (canary_loop = only at the loop with that
+    ordinal of each function: probes of nested / consecutive loops of one function mask each other, a failed assert being assumed afterwards)."""
     segs = parse_template(template_text, unit)
     reqs = []
     for k, (kind, d) in enumerate(segs):
@@ -290,6 +291,8 @@ def compose(template_text, unit, canary=None):
             if info.get("ok") and info.get("kind") == "fn" and info["nloops"] > 0:
                 extra = []
                 for n in range(info["nloops"]):
+                    if canary_loop is not None and n != canary_loop:
+                        continue
                     mark = f"proof {{ assert(false); }} /*CANARY {r['id']}.{n}*/"
                     if canary == "loop_head":
                         extra.append({"op": "loop_head", "n": n, "text": mark})
@@ -345,8 +348,14 @@ def compose(template_text, unit, canary=None):
             if ren is None:
                 raise ExtractionError(
                     f"{where}: signature drift\n  repo    : {r['sig']}\n  contract: {vsig.strip()}")
-            body = "{ " + " ".join(f"let {new} = {old};" for old, new in ren) + " " + body[1:]
-            r["log"].append("R1c:renamed parameter(s) re-bound: " + ", ".join(f"{old} -> {new}" for old, new in ren))
+            # second extraction with the new names mapped back to the contract-side ones (identifier tokens of the ORIGINAL body)
+            req2 = next(q for q in reqs if q["id"] == str(k))
+            req2 = dict(req2, edits=[{"op": "rename_ident", "from": new_, "to": old_} for old_, new_ in ren] + req2["edits"])
+            r2 = run_extract([req2])[str(k)]
+            if not r2.get("ok"):
+                raise ExtractionError(f"{where}: {r2.get('error')}")
+            r = r2
+            body = r["body"]
         if canary == "head":
             body = "{ proof { assert(false); } /*CANARY %d.h*/ " % k + body[1:]
         start = line
